@@ -71,6 +71,14 @@ def binary_escape(data):
     return bytes(out)
 
 
+def binary_fragile(frame):
+    """True when a whole binary frame ('{' ... '}') falls under the recorded finding KF-BINARY-FRAMER-DELIMITER-BYTES:
+    an end delimiter byte 0x7D anywhere between the delimiters ends the frame early, and a 0x7B / 0x7D inside the PDU
+    data is doubled by buildPacket and never un-escaped.  A 0x7B in the unit, function code or CRC position is harmless."""
+    inner = frame[1:-1]
+    return (0x7D in inner) or (0x7B in frame[3:-3])
+
+
 def has_delims(framing, data):
     if framing == 'binary':
         return any(b in (0x7B, 0x7D) for b in data)
